@@ -166,11 +166,27 @@ fn gen_cfg(rng: &mut Rng) -> ExportCfg {
     c
 }
 
-fn render_cfg(t: &TableDef, schema: &[TableDef], cfg: &ExportCfg) -> Result<String, String> {
-    match catch_unwind(AssertUnwindSafe(|| vespertide_exporter::seaorm::render_entity_with_config(t, schema, &cfg.seaorm, &cfg.prefix))) {
-        Ok(s) => Ok(s),
-        Err(_) => Err("panic".into()),
+/// wall-clock cap for one in-process render (an ordinary render takes well under a millisecond)
+const RENDER_CAP_MS: u64 = 2000;
+
+/// Run a render on its own thread and wait at most RENDER_CAP_MS: a hang of the exporter (an endless loop) becomes
+/// the outcome Err("timeout") of that render instead of a hang of the harness.  The spinning thread is abandoned
+/// (it dies with the process).  Stack overflows are not survivable this way: FK-cyclic slices go to a child process.
+fn timed<F: FnOnce() -> Result<String, String> + Send + 'static>(f: F) -> Result<String, String> {
+    let (tx, rx) = std::sync::mpsc::channel();
+    std::thread::spawn(move || {
+        let r = catch_unwind(AssertUnwindSafe(f)).unwrap_or_else(|_| Err("panic".into()));
+        let _ = tx.send(r);
+    });
+    match rx.recv_timeout(std::time::Duration::from_millis(RENDER_CAP_MS)) {
+        Ok(r) => r,
+        Err(_) => Err("timeout".into()),
     }
+}
+
+fn render_cfg(t: &TableDef, schema: &[TableDef], cfg: &ExportCfg) -> Result<String, String> {
+    let (t, schema, cfg) = (t.clone(), schema.to_vec(), cfg.clone());
+    timed(move || Ok(vespertide_exporter::seaorm::render_entity_with_config(&t, &schema, &cfg.seaorm, &cfg.prefix)))
 }
 
 /// the lines of a SeaORM entity that depend on the export configuration, in output order
@@ -182,11 +198,8 @@ fn cfg_lines(text: &str) -> Vec<String> {
 }
 
 fn render(orm: Orm, t: &TableDef, schema: &[TableDef]) -> Result<String, String> {
-    match catch_unwind(AssertUnwindSafe(|| render_entity_with_schema(orm, t, schema))) {
-        Ok(Ok(s)) => Ok(s),
-        Ok(Err(e)) => Err(format!("error: {}", e)),
-        Err(_) => Err("panic".into()),
-    }
+    let (t, schema) = (t.clone(), schema.to_vec());
+    timed(move || render_entity_with_schema(orm, &t, &schema).map_err(|e| format!("error: {}", e)))
 }
 
 /// non-empty lines before the first `class ` line, and the name of the last class (the table class)
@@ -331,6 +344,13 @@ fn cmd_gen(args: &[String]) {
             sets.push(("default-shapes".to_string(), m));
         }
     }
+    // relation-enum collisions on tables whose name is made of separators / digits / symbols only
+    if arg(args, "--relenum", "1") == "1" {
+        for m in advgen::gen_relenum_sets() {
+            sets.push(("relenum-collide".to_string(), m));
+            n_chain_sets += 1;
+        }
+    }
     // systematic name shapes for every sanitising function
     if arg(args, "--name-shapes", "1") == "1" {
         for m in advgen::gen_name_shape_sets() {
@@ -369,6 +389,7 @@ fn cmd_gen(args: &[String]) {
         std::fs::write(&cases_path, s).unwrap();
     }
     let mut shard_cases: Vec<String> = vec![];
+    let mut hung_tables: Vec<(usize, usize)> = vec![];
     let mut obs_lines = String::new();
     let mut texts = String::new();
     for (i, (tag, m)) in sets.iter().enumerate() {
@@ -393,9 +414,16 @@ fn cmd_gen(args: &[String]) {
                         Ok(d) => (format!("(SeaOk {})", d.gs()), json!({"status": "ok", "o17": seaparse::oracle(&d, &names)}), Some(text)),
                         Err(e) => ("SeaPanic".to_string(), json!({"status": "unparsed", "why": e}), Some(text)),
                     },
+                    Err(e) if e == "timeout" => ("SeaDiverged".to_string(), json!({"status": "diverged", "subprocess": format!("in-process render thread: no result after {} ms", RENDER_CAP_MS)}), None),
                     Err(e) => ("SeaPanic".to_string(), json!({"status": e}), None),
                 }
             };
+            // a table whose SeaORM render hung is not rendered for SeaORM again (configuration, repeats, permutations, fresh processes)
+            let hung = sea_j["status"] == "diverged" && !cyclic;
+            if hung {
+                hung_tables.push((i, j));
+            }
+            let cyclic = cyclic || hung;
             // --- Python ORMs (they ignore the slice)
             let sa = render(Orm::SqlAlchemy, t, m);
             let sm = render(Orm::SqlModel, t, m);
@@ -465,12 +493,14 @@ fn cmd_gen(args: &[String]) {
             let cfg = &cfgs[i];
             let mut cfg_variants: Vec<Vec<String>> = vec![];
             let mut cfg_rep = true;
-            let cfg_first: Result<String, String> = if cyclic {
+            let cfg_first: Result<String, String> = if hung {
+                Err("diverged".to_string())
+            } else if cyclic {
                 render_in_child(&cases_path, i, j, cap_ms, true).0.ok_or_else(|| "diverged".to_string())
             } else {
                 render_cfg(t, m, cfg)
             };
-            for k in 0..sea_cfg_reps {
+            for k in 0..(if hung { 0 } else { sea_cfg_reps }) {
                 let x = if k == 0 { cfg_first.clone() } else if cyclic { render_in_child(&cases_path, i, j, cap_ms, true).0.ok_or_else(|| "diverged".to_string()) } else { render_cfg(t, m, cfg) };
                 if x != cfg_first {
                     cfg_rep = false;
@@ -537,6 +567,15 @@ fn cmd_gen(args: &[String]) {
         }
         shard_cases.push(compress_literals(&format!("(mkXC {} {} [{}])", m.gs(), cfgs[i].gs(), xts.join("; "))));
         let _ = writeln!(obs_lines, "{}", json!({"idx": i, "tag": tag, "tables": tabs}));
+    }
+    if !hung_tables.is_empty() {
+        // the fresh-process renders must skip the tables that hang: mark them like the FK-cyclic ones
+        let mut s = String::new();
+        for (i, (tag, m)) in sets.iter().enumerate() {
+            let cyc: Vec<bool> = m.iter().enumerate().map(|(j, t)| advgen::fk_cycle_from(m, t) || hung_tables.contains(&(i, j))).collect();
+            let _ = writeln!(s, "{}", json!({"idx": i, "tag": tag, "models": m, "cyclic": cyc, "config": cfgs[i]}));
+        }
+        std::fs::write(&cases_path, s).unwrap();
     }
     let header = "From VV.EXP Require Import CorrExp.\n";
     let tail = "Definition bad := mismatches_from shard_base cases.\nEval vm_compute in bad.\nEval vm_compute in map classify_case cases.\n";
